@@ -41,6 +41,7 @@ def run(rep: Report, tier: str) -> None:
 	rule_d(rep, idx, nm)
 	rule_e(rep, idx, nm)
 	rule_f(rep, idx, nm)
+	rule_walker_state(rep, idx)
 
 
 # ---- (a) list-ness ------------------------------------------------------------------------------------------------------
@@ -360,6 +361,13 @@ def rule_d(rep: Report, idx: SourceIndex, nm: NodeModel) -> None:
 			for a, b, tag in ((n.elts[0], n.elts[1], 'post'), (n.elts[1], n.elts[0], 'pre')):
 				if isinstance(a, ast.Starred) and isinstance(a.value, ast.Call) and unparse(a.value.func).endswith('.procedural') and isinstance(b, ast.Name) and unparse(a.value.func) == b.id + '.procedural':
 					disp.append((n, tag))
+	# the same order written as a concatenation: `child.procedural() + [child]` (post) / `[child] + child.procedural()` (pre)
+	for n in nodes(pcl, ast.BinOp):
+		if not isinstance(n.op, ast.Add):
+			continue
+		for a, b, tag in ((n.left, n.right, 'post'), (n.right, n.left, 'pre')):
+			if isinstance(a, ast.Call) and unparse(a.func).endswith('.procedural') and isinstance(b, ast.List) and len(b.elts) == 1 and isinstance(b.elts[0], ast.Name) and unparse(a.func) == b.elts[0].id + '.procedural':
+				disp.append((n, tag))
 	if not disp:
 		r.skip('flatten-order:post-order', pr.where, 'no `[*child.procedural(), child]` display in Node.procedural')
 	for n, tag in disp:
@@ -628,3 +636,26 @@ def rule_f(rep: Report, idx: SourceIndex, nm: NodeModel) -> None:
 		r.ok('no-mutation-sites', None, message='no in-place mutation of a node-property list found')
 	rep.extra_coverage['node_list_properties'] = len(list_props)
 	rep.extra_coverage['node_list_mutation_sites'] = n_sites
+
+
+def rule_walker_state(rep: Report, idx: SourceIndex) -> None:
+	"""The walker flattens a node's properties and later pops as many results as each property yielded: both numbers must come from the tree being walked.
+	Node identity (`__hash__` / `__eq__`) is (module path, full path) — NOT the tree: a Procedure that remembers per-node facts across runs (a memo of
+	property lengths keyed by node) answers for the node at the same path of a re-loaded module, flattens with the new length and pops with the old one.
+	The inventory of remembered state is C04's; the entries of Procedure are obligations here."""
+	from checks import c04
+	r = rep.rule('C09/walker-keeps-no-per-node-state', 'Procedure holds no container / memo besides its handler table and the per-run stacks (shared with C04/instance-state-inventory)', floor=1)
+	scratch = Report('C04', rep.tier)
+	c04.rule_g(scratch, idx)
+	n_ = 0
+	for rule in scratch.rules:
+		for o in rule.obligations:
+			if not o.key.startswith('Procedure.'):
+				continue
+			n_ += 1
+			if o.status == 'violated':
+				r.violate(o.key, (o.file, o.line), o.message + ' — node equality is (module path, full path): a per-node memo outlives the tree it was computed on, and the number of results popped for a property no longer matches the number pushed', o.fragment)
+			else:
+				r.ok(o.key, (o.file, o.line))
+	if n_ == 0:
+		r.skip('Procedure', None, 'C04/instance-state-inventory lists no attribute of Procedure')
